@@ -157,6 +157,53 @@ func (n *InfluxQLNode) UnmarshalJSON(data []byte) error {
 	return nil
 }
 
+// validate checks the arguments that the reducers use as a divisor or as a size without looking at them.
+func (n *InfluxQLNode) validate() error {
+	if len(n.Args) == 0 {
+		return nil
+	}
+	var v int64
+	switch a := n.Args[0].(type) {
+	case int64:
+		v = a
+	case time.Duration:
+		v = int64(a)
+	default:
+		return nil
+	}
+	switch n.Method {
+	case "top", "bottom":
+		if v <= 0 {
+			return fmt.Errorf("%s: the number of points must be greater than zero, got %d", n.Method, v)
+		}
+	case "movingAverage":
+		if v <= 0 {
+			return fmt.Errorf("movingAverage: the window must be greater than zero, got %d", v)
+		}
+	case "elapsed":
+		if v <= 0 {
+			return fmt.Errorf("elapsed: the unit must be greater than zero, got %v", time.Duration(v))
+		}
+	case "holtWinters", "holtWintersWithFit":
+		if v < 0 {
+			return fmt.Errorf("%s: the number of predicted values must not be negative, got %d", n.Method, v)
+		}
+		if len(n.Args) > 2 {
+			switch interval := n.Args[2].(type) {
+			case time.Duration:
+				if interval <= 0 {
+					return fmt.Errorf("%s: the interval must be greater than zero, got %v", n.Method, interval)
+				}
+			case int64:
+				if interval <= 0 {
+					return fmt.Errorf("%s: the interval must be greater than zero, got %v", n.Method, time.Duration(interval))
+				}
+			}
+		}
+	}
+	return nil
+}
+
 // Use the time of the selected point instead of the time of the batch.
 //
 // Only applies to selector functions like first, last, top, bottom, etc.
